@@ -166,8 +166,14 @@ def fmt_lit(ty, v):
         return f'{v}&'
     if ty in '!#':
         s = repr(float(v))
-        if 'e' in s or 'inf' in s or 'nan' in s:
+        if 'inf' in s or 'nan' in s:
             raise ValueError('unprintable float literal %r' % (v,))
+        if 'e' in s:
+            # exponent form: D marks a DOUBLE, E a SINGLE (no suffix)
+            m, x = s.split('e')
+            if m.endswith('.0'):
+                m = m[:-2]
+            return m + ('D' if ty == '#' else 'E') + x
         if s.endswith('.0'):
             s = s[:-2]
         return s + ty
@@ -401,8 +407,21 @@ class Printer:
         if k == 'if':
             first = True
             for i, (cond, body) in enumerate(s['arms']):
-                self.emit(depth, ('if ' if first else 'elseif ') + pe(cond) + ' then',
-                          sid if first else f'{sid}.arm{i}')
+                head = ('if ' if first else 'elseif ') + pe(cond) + ' then'
+                inl = None
+                if not first and i in (s.get('inline_arms') or ()) and body \
+                        and body[0]['k'] not in ('label', 'multi', 'ifl', 'data'):
+                    inl = self.simple(body[0])
+                if inl is not None:
+                    # ELSEIF c THEN stmt  - the first statement of the branch on
+                    # the ELSEIF line itself
+                    self.emit(depth, head + ' ' + inl, f'{sid}.arm{i}')
+                    ln, col = self.pos[f'{sid}.arm{i}']
+                    self.pos[body[0].get('id')] = (ln, col + len(head) + 1)
+                    self.text_of[body[0].get('id')] = inl
+                    body = body[1:]
+                else:
+                    self.emit(depth, head, sid if first else f'{sid}.arm{i}')
                 first = False
                 self.stmts(body, depth + 1)
             if s.get('els') is not None:
@@ -515,7 +534,7 @@ class Printer:
                 remap[i] = (len(new), 0)
             # nothing may follow a single-line IF on its line (it would become
             # part of the THEN / ELSE branch)
-            single_if = t.startswith('if ') and not t.endswith(' then')
+            single_if = t.startswith(('if ', 'elseif ')) and not t.endswith(' then')
             self._joinable_prev = plain and not single_if and not (ok and self._prev_single_if)
             if ok:
                 self._prev_single_if = self._prev_single_if or single_if
